@@ -12,7 +12,7 @@ HOOKS = ('setUp', 'tearDown', 'testSetUp', 'testTearDown')
 
 DEFAULT_PROFILE = dict(
     min_layers=1, max_layers=5, p_inst=0.3, p_hook=0.75, max_bases=3,
-    max_modules=2, max_classes=3, max_tests=4, p_unit=0.2, p_level=0.0, p_suite_tree=0.35,
+    max_modules=2, max_classes=3, max_tests=4, p_unit=0.2, p_level=0.06, p_suite_tree=0.35,
     p_subtests=0.12, p_deco_skip=0.08, p_deco_xfail=0.08, p_setup=0.5, p_teardown=0.5,
     p_cleanup=0.2, p_layer_as_str=0.1, p_suite_layer=0.3, max_total_tests=12,
 )
